@@ -24,7 +24,7 @@ def main():
         for name in (a[1:] or sorted(os.listdir(D))):
             d = f"{D}/{name}"; meta = json.load(open(f"{d}/meta.json"))
             r = sh(f"git -C /repo apply {d}/refactor.diff")
-            if r.returncode != 0: print(name, "does not apply:", r.stderr.strip()); continue
+            if r.returncode != 0: print(name, "does not apply to the current /repo HEAD (it was written for and evaluated at", meta.get("repo_head"), "- see its meta.json)"); continue
             try:
                 t = sh("cargo test --workspace --no-fail-fast --offline 2>&1 | grep 'test result'", cwd="/repo").stdout.strip()
                 alarms, quiet, mach = [], [], []
